@@ -81,12 +81,36 @@ func checkInitStatesWidth(p *Program, r *Report, models []*Model) {
 				}
 			}
 		}
+		// the cells may be initialised by a helper method of the wrapper that hands back the rows and their greatest
+		// length (`cellStates, numStates := m.initialCellStates(n)`): the accumulation is then judged in the helper
+		fnI := fn
+		var helperCall *ssa.Call
+		if len(inits) == 0 {
+			for _, c := range callsIn(fn) {
+				call, ok := c.(*ssa.Call)
+				h := c.Common().StaticCallee()
+				if !ok || h == nil || h.Blocks == nil || fnPkg(h) != fnPkg(fn) || h == fn {
+					continue
+				}
+				for _, c2 := range callsIn(h) {
+					if call2, ok := c2.(*ssa.Call); ok {
+						if f := c2.Common().StaticCallee(); f != nil && f.Name() == m.InitFunc && fnPkg(f) == fnPkg(fn) {
+							inits[call2] = true
+							fnI, helperCall = h, call
+						}
+					}
+				}
+				if helperCall != nil {
+					break
+				}
+			}
+		}
 		if len(inits) == 0 {
 			r.Undecided("R04.8", key, p.Pos(fn.Pos()), "call of the init function "+m.InitFunc+" not found in InitialiseStates")
 			continue
 		}
 		n++
-		loops := findLoops(fn)
+		loops := findLoops(fnI)
 		// the constructor(s) of the returned array
 		var ctors []*ssa.Call
 		bad := ""
@@ -114,13 +138,23 @@ func checkInitStatesWidth(p *Program, r *Report, models []*Model) {
 			if _, isConst := constInt(W); isConst {
 				continue
 			}
+			if helperCall != nil {
+				// W is a result of the helper: judged as the value the helper returns
+				ex, isEx := origin1(W).(*ssa.Extract)
+				rets := returnsOf(fnI)
+				if !isEx || ex.Tuple != ssa.Value(helperCall) || len(rets) != 1 || ex.Index >= len(rets[0].Results) {
+					bad = "the row width is not the width the initialising helper " + fnI.Name() + " reports"
+					break
+				}
+				W = rets[0].Results[ex.Index]
+			}
 			for ic := range inits {
 				li := innermostLoop(loops, ic.Block())
 				if li == nil {
 					bad = "the init function is not called in a loop over the cells"
 					break
 				}
-				if li.Blocks[ct.Block()] {
+				if ct.Parent() == fnI && li.Blocks[ct.Block()] {
 					bad = fmt.Sprintf("the state array is allocated inside the loop that initialises the cells, from the state vector of the cell at hand (cell 0): a later cell whose %s result is longer overruns its row", m.InitFunc)
 					break
 				}
